@@ -214,12 +214,36 @@ def guard_requests():
     }
 
 
+def extra_requests():
+    """C12 only (outside the assumptions of C02 / of the operation theorems): several directory levels created at once."""
+    nested = {"pbook": {"tag": "VADDRESSBOOK"}, "n1/n2/pcal": {"tag": "VCALENDAR"}}
+    return {
+        # the storage API called with a missing parent chain (/bob/ and /bob/work/ do not exist): the same program as MKCALENDAR
+        "api_create_nested": dict(api="create_collection", path="/bob/work/cal/", props={"tag": "VCALENDAR"}, user="bob",
+                                  method="API", kind="RMkcalendar", coll="bob/work/cal"),
+        # first login with a predefined collection whose name has several levels: not a model request, monitor only
+        "home_predef_nested": dict(method="PROPFIND", path="/u4/", login="u4:", headers={"HTTP_DEPTH": "0"}, kind="MonitorOnly", coll="u4",
+                                   conf_extra={"storage": {"predefined_collections": json.dumps(nested)}}),
+    }
+
+
+def startup_requests():
+    """First start on a storage location that does not exist yet (nested): the start-up belongs to the traced history."""
+    return {
+        "start_fresh_home": dict(method="PROPFIND", path="/user/", login=L, headers={"HTTP_DEPTH": "0"}, kind="Startup", coll="user"),
+        "start_fresh_mkcalendar": dict(method="MKCALENDAR", path="/user/cal/", login=L, kind="Startup", coll="user/cal"),
+        "start_fresh_mirror": dict(method="PUT", path="/user/cal/", data=EVS(["s1"]), login=L, kind="Startup", coll="user/cal", lay=(True, True)),
+    }
+
+
 EXTRA_OPS = {}
 
 
 def all_ops():
     d = op_requests()
     d.update(guard_requests())
+    d.update(extra_requests())
+    d.update(startup_requests())
     d.update(EXTRA_OPS)
     return d
 
@@ -228,7 +252,7 @@ SKIP = {"move_same_over", "move_cross_over"}   # rename onto itself / UID-confli
 
 
 def http_of(op):
-    return {k: op[k] for k in ("method", "path", "data", "login", "headers") if k in op}
+    return {k: op[k] for k in ("method", "path", "data", "login", "headers", "api", "props", "user") if k in op}
 
 
 FOLLOWUP_KEY = "user/abook/zz-same.vcf"
@@ -240,7 +264,7 @@ FOLLOWUP_EXPECT = [207, 201, 200, 207]
 
 
 def run_driver(case_dir, folder, conf, op, inject=None, list_before=(), list_after=(), timeout=120, followups=(),
-               calls=None, strsize=70000, fsize=None):
+               calls=None, strsize=70000, fsize=None, startup=False):
     spec = os.path.join(case_dir, "spec.json")
     outp = os.path.join(case_dir, "out.json")
     tr = os.path.join(case_dir, "trace.txt")
@@ -248,7 +272,7 @@ def run_driver(case_dir, folder, conf, op, inject=None, list_before=(), list_aft
         if os.path.exists(f):
             os.remove(f)
     json.dump(dict(folder=folder, conf=conf, fsync=True, request=http_of(op), list_before=list(list_before),
-                   list_after=list(list_after), followups=list(followups), fsize=fsize), open(spec, "w"))
+                   list_after=list(list_after), followups=list(followups), fsize=fsize, startup=startup), open(spec, "w"))
     cmd = ["strace", "-f", "-y", "-s", str(strsize), "-e", "trace=" + (calls or X.TRACE_CALLS), "-o", tr]
     if not (inject and "signal=" in inject):
         cmd.insert(2, "--seccomp-bpf")      # signal injection needs the syscall-entry stop
@@ -359,7 +383,7 @@ def unfaulted(base, shape, lay, opname):
     except Exception as ex:
         rerr = "read-site discovery failed: %r" % (ex,)
     try:
-        if kind == "Guard":
+        if kind in ("Guard", "MonitorOnly"):
             req = None
         elif kind == "RPutItem":
             before = [n for n in (out["before"].get(lb[0]) or []) if X.Names.is_safe(n) and os.path.isfile(os.path.join(pre_folder, "collection-root", coll, n))]
@@ -409,12 +433,42 @@ def unfaulted(base, shape, lay, opname):
     else:
         derive_error = None
     return dict(shape=shape, lay=lay, opname=opname, status=out.get("status"), request=req, derive_error=derive_error, pre_entries=pre_entries,
-                guard=kind == "Guard", rsites=rsites, rsites_error=rerr,
+                guard=kind == "Guard", monitor_only=kind == "MonitorOnly", rsites=rsites, rsites_error=rerr,
                 post_entries=post_entries, steps=[(s["step"], s["ok"]) for s in steps],
                 sys=[[(x.name, x.ordinal) for x in s["sys"]] for s in steps], locks=[(x.name, x.ordinal) for x in locks],
                 pre_abs=pre_abs, post_abs=post_abs, names=names, contents=contents, case_dir=c["case_dir"], error=None,
                 list_before=lb, list_after=["collection-root/" + coll],
                 reads=[(x.name, x.ordinal, r, isdir) for x, r, isdir in reads])
+
+
+def startup_run(args):
+    """First start on a nested storage location that does not exist: trace construction of the Application and the
+    first request; the projection is rebased on the existing ancestor (the ancestors, the storage folder and
+    collection-root count as visible directories).  Returns dict(opname, status, steps, verdict, error)."""
+    base, opname = args
+    op = all_ops()[opname]
+    lay = tuple(op.get("lay", (False, False)))
+    case_dir = os.path.join(base, "case-startup-%s" % opname)
+    try:
+        if os.path.isdir(case_dir):
+            shutil.rmtree(case_dir)
+        top = os.path.join(case_dir, "fresh")
+        os.makedirs(top)
+        folder = os.path.join(top, "a", "b", "st")
+        rc, txt, out, tr = run_driver(case_dir, folder, conf_for(base, lay), op, startup=True)
+        if out is None:
+            return dict(opname=opname, error="driver failed rc=%s %s" % (rc, txt[-600:]))
+        names, contents = X.Names(), X.Contents()
+        names.residue = False
+        steps, _, _ = X.project(trace.parse(tr), top, names, contents, "req", "end", rebased=True)
+        steps_ok = [s_["step"] for s_ in steps if s_["ok"]]
+        created = os.path.isdir(os.path.join(folder, "collection-root"))
+        shutil.rmtree(case_dir, ignore_errors=True)
+        return dict(opname=opname, status=out.get("status"), steps=steps_ok, verdict=X.durable_monitor(steps_ok), error=None,
+                    created=created, lay=lay)
+    except Exception as ex:
+        import traceback
+        return dict(opname=opname, error="exception: %r %s" % (ex, traceback.format_exc()[-800:]))
 
 
 # ====================================================================== crash / fault injection
@@ -435,6 +489,9 @@ def inject_run(job):
         spec = None
     else:
         spec = "%s:%s:when=%d" % (sysname, "signal=KILL" if mode == "crash" else "error=" + err, ordinal)
+        if job.get("span", 1) > 1:
+            # the call and the next span-1 calls of that name fail (a retry of the same rename fails again)
+            spec += "..%d" % (ordinal + job["span"] - 1)
     rc, txt, out, tr = run_driver(c["case_dir"], folder, c["conf"], op, inject=spec,
                                   list_before=job.get("list_before", ()), list_after=job.get("list_after", ()),
                                   followups=FOLLOWUPS if mode != "crash" else (),
@@ -465,6 +522,17 @@ def inject_run(job):
             res["miss"] = "expected %r in %r" % (job["expect_frag"], hit_line[:200])
     except OSError as ex:
         res["miss"] = repr(ex)
+    # ---- durability of the faulted request itself when it is answered with success (a fall-back path after an errno)
+    if job.get("durable_request") and out is not None:
+        try:
+            nm3, ct3 = job["names"].copy(), job["contents"].copy()
+            X.tree_entries(folder, nm3, ct3)
+            steps_r, _, _ = X.project(trace.parse(tr), folder, nm3, ct3, "req", "end")
+            ok_r = [s_["step"] for s_ in steps_r if s_["ok"]]
+            v = X.durable_monitor(ok_r) if out.get("status") in SUCCESS else None
+            res["request_durability"] = dict(verdict=v, steps=[X.fmt_step(x) for x in ok_r])
+        except Exception as ex:
+            res["request_durability_error"] = repr(ex)
     # ---- durability of the follow-up requests served by the same process (a fault must not switch syncing off)
     if job.get("durable_followups") and out is not None and out.get("followups"):
         try:
